@@ -331,6 +331,8 @@ def call(case, ts):
     if entry != "date":
         fn = getattr(tsdate, entry)
         kw.pop("method", None)
+    import logging
+    logging.getLogger("tsdate").setLevel(logging.ERROR)     # "Could not set time metadata ..." warnings are expected
     try:
         with warnings.catch_warnings():
             warnings.simplefilter("ignore")
